@@ -79,10 +79,15 @@ Check eq_refl : option_map dd_show (first_max_f [mkDD (pq 1 5) 1 2; mkDD (pq (-1
                 = Some (-1 # 2, 3, 4)%Z.
 Check eq_refl : welford_z 10 (-5) 4 = 7%Z.
 Check eq_refl : welford_z (-10) 5 4 = (-7)%Z.
+Check eq_refl : dd_ms (mkDD (pq 1 5) 900000 1100000) = 0%Z.          (* 0.9 ms .. 1.1 ms: 0 whole ms *)
+Check eq_refl : dd_ms (mkDD (pq 1 5) 1 2000000) = 1%Z.                (* 1.999999 ms *)
+Check eq_refl : dd_ms (mkDD (pq 1 5) 2000000 1) = (-1)%Z.             (* truncation towards zero *)
 Check eq_refl : mg_count (mean_run mean_default [mkDD (pq 1 5) 1 2; mkDD (pq 1 2) 3 7]%Z) = 2%Z.
-Check eq_refl : option_map m_ms (mg_mean (mean_run mean_default [mkDD (pq 1 5) 1 2; mkDD (pq 1 2) 3 7]%Z)) = Some 2%Z.
+Check eq_refl : option_map m_ms (mg_mean (mean_run mean_default
+   [mkDD (pq 1 5) 1000000 2000000; mkDD (pq 1 2) 3000000 7000000]%Z)) = Some 2%Z.
 (* the drift bound of the truncating integer mean is tight: durations 0,1,2,3,4,5 ms average
    2.5 ms but the recurrence never leaves 0 (each (d_k - 0) / k truncates to 0) *)
 Check eq_refl : option_map m_ms (mg_mean (mean_run mean_default
-   [mkDD (pq 1 5) 0 0; mkDD (pq 1 5) 0 1; mkDD (pq 1 5) 0 2; mkDD (pq 1 5) 0 3; mkDD (pq 1 5) 0 4; mkDD (pq 1 5) 0 5]%Z))
+   [mkDD (pq 1 5) 0 0; mkDD (pq 1 5) 0 1000000; mkDD (pq 1 5) 0 2000000; mkDD (pq 1 5) 0 3000000;
+    mkDD (pq 1 5) 0 4000000; mkDD (pq 1 5) 0 5000000]%Z))
    = Some 0%Z.
